@@ -638,13 +638,27 @@ func StaleLoopVars(f *Func) []StaleVar {
 func guardedBySelf(info *types.Info, st ast.Stmt, as *ast.AssignStmt, o types.Object) bool {
 	found := false
 	ast.Inspect(st, func(n ast.Node) bool {
-		is, ok := n.(*ast.IfStmt)
-		if !ok {
-			return true
-		}
-		inBody := within(as, is.Body) || (is.Else != nil && within(as, is.Else))
-		if inBody && mentions(info, is.Cond, o) {
-			found = true
+		switch is := n.(type) {
+		case *ast.IfStmt:
+			inBody := within(as, is.Body) || (is.Else != nil && within(as, is.Else))
+			if inBody && mentions(info, is.Cond, o) {
+				found = true
+			}
+		case *ast.SwitchStmt:
+			// the switch form of the same chain: the tag or a case expression tests the variable
+			if !within(as, is.Body) {
+				return true
+			}
+			if is.Tag != nil && mentions(info, is.Tag, o) {
+				found = true
+			}
+			for _, cl := range is.Body.List {
+				for _, e := range cl.(*ast.CaseClause).List {
+					if mentions(info, e, o) {
+						found = true
+					}
+				}
+			}
 		}
 		return true
 	})
